@@ -21,7 +21,7 @@ pub(crate) fn mk_state(phase: Phase, writer: BodyWriter, reader: Option<BodyRead
 /// `analyzed` is true once any byte has been written, which is the case in every body phase.
 pub(crate) fn mk_call<S>(state: BodyState, analyzed: bool) -> Call<S, ()> {
     Call {
-        request: AmendedRequest::new(Request::new(())),
+        request: crate::client::amended::verif_h::mk_amended(Request::new(())),
         analyzed,
         state,
         _ph: PhantomData,
@@ -37,7 +37,7 @@ const W04: usize = 16;
 //@ props: C04 C01
 //@ tier: quick
 //@ unwind: 4
-//@ unwindset: c04_call_write_step=18 try_from_fn_erased=66 array..from_fn=66 from_fn=66
+//@ unwindset: c04_call_write_step=18
 //@ timeout: 900
 //@ encodes: Call::<WithBody>::write (body phase: after-finish guard, over-length guard), BodyWriter::write (Sized), Writer
 //@ vars: left: any u64; ended: bool (RI: ended => left==0); input/out buffers 16 symbolic bytes each, in,out<=16
@@ -102,7 +102,7 @@ fn c04_call_write_step() {
 //@ props: C04
 //@ tier: quick
 //@ unwind: 4
-//@ unwindset: try_from_fn_erased=66 array..from_fn=66 from_fn=66
+//@ unwindset:
 //@ timeout: 900
 //@ encodes: Call::<WithBody>::consume_direct_write, BodyWriter::consume_direct_write, BodyWriter::left_to_send
 //@ vars: writer: Sized(any u64, ended per RI) or Chunked(ended any); amount: any usize
@@ -156,7 +156,7 @@ pub(crate) fn reader_of<S>(c: &Call<S, ()>) -> Option<BodyReader> {
 //@ props: C08 C01 C12
 //@ tier: quick
 //@ unwind: 4
-//@ unwindset: c08_call_read_length_step=18 try_from_fn_erased=66 from_fn=66
+//@ unwindset: c08_call_read_length_step=18
 //@ timeout: 900
 //@ encodes: Call::<RecvBody>::read, BodyReader::read, BodyReader::read_limit, BodyReader::is_ended, util::log_data
 //@ vars: remaining: any u64; input window 16 symbolic bytes (its tail plays the next response), in<=16; output 16 symbolic bytes, out<=16
@@ -207,7 +207,7 @@ fn c08_call_read_length_step() {
 //@ props: C08 C01 C12
 //@ tier: quick
 //@ unwind: 4
-//@ unwindset: c08_call_read_close_step=18 try_from_fn_erased=66 from_fn=66
+//@ unwindset: c08_call_read_close_step=18
 //@ timeout: 900
 //@ encodes: Call::<RecvBody>::read, BodyReader::read, BodyReader::read_unlimit, is_ended, is_close_delimited
 //@ vars: input window 16 symbolic bytes, in<=16; output 16 symbolic bytes, out<=16
@@ -247,7 +247,7 @@ fn c08_call_read_close_step() {
 //@ props: C08 C12
 //@ tier: quick
 //@ unwind: 4
-//@ unwindset: memcmp=10 try_from_fn_erased=66 from_fn=66
+//@ unwindset: memcmp=10
 //@ timeout: 900
 //@ encodes: Call::<RecvBody>::read with reader NoBody
 //@ vars: input/out windows <= 8 symbolic bytes
@@ -280,7 +280,7 @@ const N03: usize = 64;
 //@ props: C03 C01
 //@ tier: quick
 //@ unwind: 6
-//@ unwindset: write_all=3 try_from_fn_erased=66 from_fn=66
+//@ unwindset: write_all=3
 //@ timeout: 900
 //@ encodes: Call::<WithBody>::write (body phase, chunked writer: after-finish guard, delegation), BodyWriter::write, BodyWriter::finish
 //@ stubs_note: body::write_chunk replaced by havoc constrained by chunk_spec (proven by c03_lemma_write_chunk_*); <Writer as io::Write>::write count-abstracted
